@@ -322,6 +322,10 @@ class SymArray(np.ndarray):
         outs = None
         if out is not None:
             outs = tuple(_obj(o) if isinstance(o, np.ndarray) and o.dtype == object else o for o in out)
+            if all(isinstance(o, np.ndarray) and o.dtype == np.bool_ for o in outs):
+                # e.g. `keep &= symbolic_mask` on a concrete boolean array: decide every symbolic truth value (one path per outcome)
+                conc = [np.frompyfunc(lambda v: bool(v), 1, 1)(x).astype(np.bool_) if isinstance(x, np.ndarray) and x.dtype == object else x for x in plain]
+                return getattr(ufunc, method)(*conc, out=out, **kwargs)
             for o in outs:
                 if isinstance(o, np.ndarray) and o.dtype != object:
                     raise Unsupported("in-place symbolic result into a concrete numeric array")
